@@ -25,6 +25,8 @@ def nanmean_ddof_object(ddof, value, axis=None, dtype=None, **kwargs):
     data = np.sum(value, axis=axis, **kwargs)
     den = valid_count - ddof
     data = data / np.where(den == 0, 1, den)      # numpy floats give nan for 0/0; objects would raise
+    if not isinstance(data, np.ndarray):
+        return data if valid_count != 0 else float('nan')
     return where_method(data, valid_count != 0)
 
 
